@@ -135,9 +135,9 @@ func init() {
 			method = "CStream"
 		}
 		scn := &scenario{SID: ts.SID, Fam: "timeout",
-			Cfg: cfgSpec{Protos: []string{ts.Target}, Codecs: []string{"proto"}, Comps: []string{"gzip"}},
-			Cl:  clientSpec{Form: ts.Form, Method: method, Codec: codec, Frames: []frameSpec{{M: 1}}, Timeout: ts.CV.render()},
-			Hd:  handlerSpec{Frames: []frameSpec{{M: 2}}, ErrAt: 1, End: endSpec{How: "normal"}},
+			Cfg:  cfgSpec{Protos: []string{ts.Target}, Codecs: []string{"proto"}, Comps: []string{"gzip"}},
+			Cl:   clientSpec{Form: ts.Form, Method: method, Codec: codec, Frames: []frameSpec{{M: 1}}, Timeout: ts.CV.render()},
+			Hd:   handlerSpec{Frames: []frameSpec{{M: 2}}, ErrAt: 1, End: endSpec{How: "normal"}},
 			Msgs: map[string]string{"1": "ascii", "2": "ascii"}}
 		if ts.CV.Kind == "absent" {
 			scn.Cl.Timeout = ""
